@@ -69,6 +69,9 @@ pub const STATEMENTS: &[(&str, &str)] = &[
     ("alias", "let al = qq[0:1];"),
     ("alias-concat", "let al2 = q ++ qq;"),
     ("expr-stmt", "x + 1;"),
+    ("neg-expr-stmt", "-y;"),
+    ("paren-expr-stmt", "(x + 1);"),
+    ("paren-call-stmt", "(f2)();"),
     ("call-stmt", "f2();"),
     ("cast-stmt", "int[8](x);"),
     ("index-stmt", "b[1];"),
@@ -223,7 +226,7 @@ impl Property for C16 {
         "C16"
     }
     fn rule(&self) -> &'static str {
-        "Metamorphic over the real parser: 73 statement texts covering every statement kind (incl. the empty statement, pragma, annotation, version header, calibration and array forms). A statement belongs to the workload iff it parses with zero diagnostics alone (decided at run time). All ordered pairs (quick and thorough), all triples over a 12-kind subset and random sequences up to length 12, each at file level and inside gate/def/if/else/while/for/case/default block bodies, with space and newline separators: the concatenation must parse with zero diagnostics and its statement list (kind, whitespace-normalised text) must equal the concatenation of the individually parsed lists. One evaluation = one (sequence, context, separator). Non-trivial: >= 2 statements expected. Distinct: hash of the source."
+        "Metamorphic over the real parser: 76 statement texts covering every statement kind (incl. the empty statement, pragma, annotation, version header, calibration and array forms). A statement belongs to the workload iff it parses with zero diagnostics alone (decided at run time). All ordered pairs (quick and thorough), all triples over a 12-kind subset and random sequences up to length 12, each at file level and inside gate/def/if/else/while/for/case/default block bodies, with space and newline separators: the concatenation must parse with zero diagnostics and its statement list (kind, whitespace-normalised text) must equal the concatenation of the individually parsed lists. One evaluation = one (sequence, context, separator). Non-trivial: >= 2 statements expected. Distinct: hash of the source."
     }
     fn streams(&self, tier: Tier, seed: u64) -> Vec<Stream> {
         let n = STATEMENTS.len() as u64;
